@@ -901,8 +901,8 @@ def specs(tier):
     # 4. withheld window updates
     for stream in ("none", "both"):
         for limit in (None, 1):
-            add(b(2, 4),cs=["p2", "p1"], ss=["d2", "d1"], win=4, limit=limit, stream=stream)
-    add(b(2, 4),cs=["pt", "p1"], ss=["dt", "d1"], win=4, stream="both")
+            add(b(2, 4 if (limit == 1 or stream == "none") else 3), cs=["p2", "p1"], ss=["d2", "d1"], win=4, limit=limit, stream=stream)
+    add(b(2, 3), cs=["pt", "p1"], ss=["dt", "d1"], win=4, stream="both")
     add(b(2, 4),cs=["pt", "p1"], ss=["dt", "d1"], win=4)
     add(b(2, 4),cs=["r1", "p1"], ss=["d1", "x2"], win=4, stream="both")
     if thorough:
@@ -914,7 +914,7 @@ def specs(tier):
         for limit in (None, 1, 2):
             add(b(2, FULL), cs=cs, ss=ss, limit=limit)
             if thorough or limit == 1:
-                add(b(2, FULL),cs=cs, ss=ss, limit=limit, stream="both")
+                add(b(2, 4), cs=cs, ss=ss, limit=limit, stream="both")
     if thorough:
         add(FULL, cs=["p2", "p2", "p2"], ss=["d2", "d2", "d2"], limit=1)
         add(4, cs=["p2", "p2", "p2"], ss=["d2", "d2", "d2"], limit=2, stream="both")
@@ -934,7 +934,7 @@ def specs(tier):
         for stream in ("none", "both"):
             add(b(3, FULL), up="h1", cs=cs, ss=ss, stream=stream)
     add(b(2, FULL),up="h1", cs=["p1", "g", "p2"], ss=["d2", "ch", "eof"])
-    add(b(2, FULL),up="h1", cs=["p1", "g", "p2"], ss=["d2", "ch", "eof"], connect="manual")
+    add(b(2, 4), up="h1", cs=["p1", "g", "p2"], ss=["d2", "ch", "eof"], connect="manual")
     add(b(2, FULL), up="h1", cs=["p1", "p1"], ss=["d1", "eof"], connect="manual", stream="both")
     add(b(2, FULL),up="h1", cs=["p1", "g", "p1"], ss=["eof", "d1", "x0"], seg="coalesce")
     return out
